@@ -67,6 +67,7 @@ def check(ctx):
     from . import c04, c16
     c04.r_grammar_words(ctx, 'R13.7', order=False)
     c04.r_reviewed_grammar(ctx, 'R13.8', roots={'jet', 'ty'})
+    c04.group_rule(ctx, 'R13.10', r'^types::(BuiltinAlias::resolve|AliasedType::(resolve|resolve_builtin)(::\{closure#\d+\})?)$', 'expansion of the builtin aliases jet signatures are written with', 2)
     c04.group_rule(ctx, 'R13.9', r'^<(parse::(Call|CallName)|str::JetName) as parse::PestParse>::parse$', 'construction of calls from the parse (name variant, argument order)', 3)
     c16.r_name_tables(ctx, 'R13.6')   # parser table = grammar alternatives (the printer side belongs to C15/C16)
     rid = 'R13.1'
